@@ -3,6 +3,7 @@ package httpchk
 import (
 	"fmt"
 	"math/rand"
+	"net"
 	"strings"
 	"syscall"
 	"time"
@@ -25,6 +26,12 @@ func workerTCP(r *vk.Run, w, n int, args []string) {
 	per := sessions/n + 1
 	if w%4 == 0 || !r.Quick() {
 		stalledSession(r, rng)
+	}
+	if w%4 == 1 || !r.Quick() {
+		blankKeySession(r, rng)
+	}
+	if w%8 == 2 || !r.Quick() && w%2 == 0 {
+		dripSession(r, rng)
 	}
 	for i := 0; i < per; i++ {
 		switch i % 3 {
@@ -132,6 +139,89 @@ func stalledSession(r *vk.Run, rng *rand.Rand) {
 		time.Sleep(50 * time.Millisecond)
 	}
 	r.Distinct(fmt.Sprintf("stall gets%d unanswered%d", gets, timedOut))
+}
+
+// blankKeySession: a key made of blanks only is still a configured key (or must be refused at start):
+// a non-local listener started with it must not hand out state or accept actions without a key.
+func blankKeySession(r *vk.Run, rng *rand.Rand) {
+	key := []string{" ", "\t", "  \t "}[rng.Intn(3)]
+	s, err := tty.Start(tty.StartOpts{Args: []string{"--multi", "--no-mouse"}, InputCmd: "seq 1 50", Cols: 80, Rows: 20, Env: []string{"FZF_API_KEY=" + key}, Listen: "0.0.0.0:0"})
+	if s != nil {
+		defer s.Close()
+	}
+	r.Eval(1)
+	r.Count("blank_key_sessions", 1)
+	r.Distinct(fmt.Sprintf("blank key %q", key))
+	if s == nil || s.Port == 0 {
+		// refused at start-up (or no listener): nothing is exposed
+		_ = err
+		return
+	}
+	for _, req := range []string{"GET / HTTP/1.1\r\n\r\n", "POST / HTTP/1.1\r\nContent-Length: 4\r\n\r\ndown", "GET /?limit=3 HTTP/1.1\r\nx-api-key:\r\n\r\n"} {
+		reply, _ := s.RawHTTP([]byte(req), 5*time.Second, false)
+		if strings.HasPrefix(string(reply), "HTTP/1.1 200") || strings.Contains(string(reply), "matchCount") {
+			r.Violate(vk.Violation{Summary: fmt.Sprintf("C16: FZF_API_KEY=%q on a non-local listener: a request without the key is answered %s", key, firstLine(string(reply))), Witness: map[string]any{"key": key, "request": req, "reply": clip(reply)}})
+			return
+		}
+	}
+}
+
+// dripSession: a client that sends one header line every two seconds and never finishes must not keep
+// other clients from being served: the server bounds the time it spends reading one request (10 s), so
+// a valid GET made 13 s into the drip has to be answered within another 10 s while the drip goes on.
+func dripSession(r *vk.Run, rng *rand.Rand) {
+	s, err := tty.Start(tty.StartOpts{Args: []string{"--no-mouse"}, InputCmd: "seq 1 50", Cols: 80, Rows: 20})
+	if err != nil {
+		r.Inconclusive("start: " + err.Error())
+		if s != nil {
+			s.Close()
+		}
+		return
+	}
+	defer s.Close()
+	c, err := net.DialTimeout("tcp", fmt.Sprintf("127.0.0.1:%d", s.Port), 2*time.Second)
+	if err != nil {
+		r.Inconclusive("drip connect: " + err.Error())
+		return
+	}
+	defer c.Close()
+	stop := make(chan struct{})
+	lines := make(chan int, 1)
+	go func() {
+		n := 0
+		c.Write([]byte([]string{"GET / HTTP/1.1\r\n", "POST / HTTP/1.1\r\n"}[rng.Intn(2)]))
+		for {
+			select {
+			case <-stop:
+				lines <- n
+				return
+			case <-time.After(2 * time.Second):
+				if _, err := c.Write([]byte(fmt.Sprintf("X-Drip-%d: v\r\n", n))); err != nil {
+					<-stop
+					lines <- n
+					return
+				}
+				n++
+			}
+		}
+	}()
+	time.Sleep(13 * time.Second)
+	t0 := time.Now()
+	reply, gerr := s.RawHTTP([]byte("GET / HTTP/1.1\r\n\r\n"), 10*time.Second, false)
+	took := time.Since(t0)
+	close(stop)
+	sent := <-lines
+	r.Eval(1)
+	r.Count("drip_sessions", 1)
+	r.Distinct("drip")
+	if !strings.HasPrefix(string(reply), "HTTP/1.1 200") {
+		if _, exited := s.ExitCode(); exited {
+			r.Violate(vk.Violation{Summary: "C16: fzf exited while a client was dripping header lines: " + firstLine(s.Stderr()), Witness: map[string]any{"stderr": clipS(s.Stderr())}})
+			return
+		}
+		r.Violate(vk.Violation{Summary: fmt.Sprintf("C16: a client dripping one header line every 2 s (%d lines so far, request never finished) keeps the server from answering another client: a valid GET made 13 s into the drip got %q after %v (%v)", sent, firstLine(string(reply)), took.Round(time.Millisecond), gerr),
+			Witness: map[string]any{"header_lines_sent": sent, "reply": clip(reply)}})
+	}
 }
 
 func snapshot(st *tty.Status) string {
